@@ -105,5 +105,34 @@ def solver_programs():
     return P
 
 
+def loop_programs():
+    from . import prog_loop as pl
+    P = []
+
+    def s_interp(rng):
+        a, b = sorted((rng.uniform(0, 1), rng.uniform(0, 1)))
+        b += 1e-3
+        return dict(t0=a, t1=b, t=rng.uniform(a, b), y0=np.array([[rng.gauss(0, 1)]]), y1=np.array([[rng.gauss(0, 1)]]))
+    P.append(Prog('linear_interp', 'Loop', pl.linear_interp, s_interp, props=('C12',)))
+    for rej in (True, False):
+        for hp in (False, True):
+            def s_usz(rng, rej=rej, hp=hp):
+                d = dict(err=rng.uniform(1.0001, 50.0) if rej else rng.uniform(1e-3, 1.0), h=rng.uniform(1e-3, 0.5))
+                if hp:
+                    d['per'] = rng.uniform(0.05, 20.0)
+                return d
+            P.append(Prog(f"usz_{'rej' if rej else 'acc'}_{'prev' if hp else 'none'}", 'Loop',
+                          (lambda B, hp=hp: pl.update_step_size(B, hp)), s_usz, props=('C14',)))
+
+    def s_err(d):
+        def s(rng):
+            return dict(a=np.array([[rng.gauss(0, 1) for _ in range(d)]]), b=np.array([[rng.gauss(0, 1) for _ in range(d)]]),
+                        rtol=rng.choice([1e-3, 1e-5, 0.0]), atol=rng.choice([1e-3, 1e-6]))
+        return s
+    P.append(Prog('compute_error_1', 'Loop', lambda B: pl.compute_error(B, 1), s_err(1), props=('C14',), tol=4e-16))
+    P.append(Prog('compute_error_2', 'Loop', lambda B: pl.compute_error(B, 2), s_err(2), props=('C14',), tol=4e-16))
+    return P
+
+
 def all_programs():
-    return brownian_programs() + solver_programs()
+    return brownian_programs() + solver_programs() + loop_programs()
